@@ -7,7 +7,7 @@
 (*               at the poles: (0, 0, +-(b + H));                                *)
 (*   Bearing   : bearing(P, Q) = bearing(Q, P) +- 200 gon, distance symmetric,   *)
 (*               d cos(bearing) = dx, d sin(bearing) = dy for lattice points in  *)
-(*               all quadrants.                                                  *)
+(*               all quadrants; 0 <= bearing < 400 gon, due north is exactly 0.   *)
 (* The laws are relational (TLA+ has no trigonometry); the specification fixes   *)
 (* the grid exhaustively and the exact anchors.                                  *)
 EXTENDS Integers, Sequences, TLC, Json
@@ -22,5 +22,6 @@ Spec == Init /\ [][Next]_g
 IsGeo == "el" \in DOMAIN g
 Anchor == IF ~IsGeo THEN "none" ELSE IF g.lat = 0 /\ g.lon = 0 THEN "equator0" ELSE IF g.lat = 90 THEN "north" ELSE IF g.lat = -90 THEN "south" ELSE "none"
 Hash == IF IsGeo THEN (g.el * 7) + ((g.lat + 90) * 3) + (g.lon + 180) + (g.h % 97) ELSE 0
-Emit == ((Hash + Seed) % Keep = 0 /\ (~IsGeo => <<g.dx, g.dy>> # <<0, 0>>)) => PrintT("CASE " \o ToJson([g |-> g, anchor |-> Anchor]))
+\* thinning applies to the ellipsoid grid only; the 288 lattice offsets of the bearing law are always emitted
+Emit == ((IsGeo => (Hash + Seed) % Keep = 0) /\ (~IsGeo => <<g.dx, g.dy>> # <<0, 0>>)) => PrintT("CASE " \o ToJson([g |-> g, anchor |-> Anchor]))
 =============================================================================
